@@ -406,13 +406,23 @@ inline void install_signals() {
     sigaction(SIGILL, &sa, 0);
 }
 
-// run f() with signals turned into a return value (0 = no signal)
+// run f() with signals turned into a return value (0 = no signal).
+// f is called through an opaque, non-inlined function: otherwise the optimiser may hoist a trapping instruction of an inlined f
+// (an integer division, say) above the `armed = 1` store, and the handler would treat the signal as one outside any guard.
+template<class F>
+VX_NOINLINE void call_opaque(F& f) {
+    __asm__ __volatile__("" ::: "memory");
+    f();
+    __asm__ __volatile__("" ::: "memory");
+}
 template<class F>
 VX_NOINLINE int guarded(F& f) {
-    int sig = sigsetjmp(jmpbuf(), 1);
+    int sig = sigsetjmp(jmpbuf(), 0);  // SA_NODEFER handler: no mask to restore, and no sigprocmask system call per guard
     if (sig == 0) {
         armed() = 1;
-        f();
+        __asm__ __volatile__("" ::: "memory");
+        call_opaque(f);
+        __asm__ __volatile__("" ::: "memory");
         armed() = 0;
         return 0;
     }
